@@ -1,18 +1,20 @@
 /-
   Model of internal/cmd/tlgen/tlparser/{parser.go, excluded.go, schema.go}: `ParseSchema`,
-  `parseDefinition`, `parseParam`, with the repairs proposed in
-  /verif/pending_fixes/C14-parser-*.patch applied:
-    * a `//` comment is the rest of its line; `// @type|@enum|@constructor|@method|@param …` lines are
-      annotations, every other comment is ignored (before: "unknown comment type" error, and the
-      comment word was read across line ends);
-    * `Unread` after the look-ahead word counts runes, not bytes (before: a definition line
-      containing non-ASCII runes could move the cursor back further than it had advanced — the
+  `parseDefinition`, `parseParam`, with the repairs proposed in /verif/pending_fixes applied:
+    * C14-2-parser-plain-comments: a `//` comment is the rest of its line;
+      `// @type|@enum|@constructor|@method|@param …` lines are annotations, every other comment is
+      ignored (before: "unknown comment type" error, and the comment word was read across line ends);
+    * C14-3-parser-unread-runes: `Unread` after the look-ahead word counts runes, not bytes (before: a
+      line containing non-ASCII runes could move the cursor back further than it had advanced — the
       parser did not terminate on `"true#;€€€ "`);
-    * the empty source is an empty schema (before: index-out-of-range panic in `current()`).
+    * C14-4-parser-empty-source: the empty source is an empty schema (before: index-out-of-range panic
+      in `current()`);
+    * C14-1-cursor-isnext-restore is in Cursor.lean (`isNext`).
 
   Errors are classes, not messages. Every `io.EOF` coming out of a cursor read inside a definition
   ends the parse *successfully* with what was collected so far (`errors.Is(err, io.EOF)` → `break`):
-  the model mirrors that.
+  the model mirrors that. `parseParamType` and `parseResult` are the second half of `parseParam` and
+  the result part of `parseDefinition`, split off for the proofs (no change of behaviour).
 
   Core-only.
 -/
